@@ -35,7 +35,7 @@ def run(model: Model, rep: Report, tier: str) -> None:
         ".separated. minimal() is checked for one grouping key and a size-first policy. Truth of each verdict is C04's rules, re-run."
     )
     rep.trusted_base = ["itertools.combinations/groupby/chain, range", "C04 (re-run here)"]
-    rep.floors = {"R15.1": 2, "R15.2": 1, "R15.3": 1, "R15.4": 5, "R4.1": 1, "R4.2": 1}
+    rep.floors = {"R15.1": 2, "R15.2": 1, "R15.3": 1, "R15.4": 5, "R4.1": 1}
     from ..refcmp import load_reference, run_table
     from .common import NXMG
 
